@@ -1,6 +1,6 @@
 ------------------------------- MODULE Edit_proto -------------------------------
 EXTENDS Naturals, Integers, FiniteSets, Sequences, TLC
-CONSTANTS MaxAtom, FlushOnDelete, FlushOnCommit, ResetChangedOnAbort
+CONSTANTS MaxAtom, FlushOnDelete, FlushOnCommit, ResetChangedOnAbort, DiscardOnDelete, RecalcAllOnCommit
 Nums == 1..MaxAtom
 NoTx == [open |-> FALSE, atoms |-> {}, chg |-> <<>>, bonds |-> <<>>, hfresh |-> {}, cache |-> <<>>]
 Pairs == { p \in SUBSET Nums : Cardinality(p) = 2 }
@@ -30,7 +30,7 @@ FixOK == changed \subseteq atoms
 AfterMut(newatoms, newchg, newbonds, newchanged, flushed) ==
    /\ atoms' = newatoms /\ chg' = newchg /\ bonds' = newbonds
    /\ cache' = flushed
-   /\ IF InTx THEN /\ changed' = newchanged /\ hfresh' = hfresh \ newchanged /\ usable' = usable
+   /\ IF InTx THEN /\ changed' = newchanged /\ hfresh' = (hfresh \cap newatoms) \ newchanged /\ usable' = usable
       ELSE IF newchanged \subseteq newatoms
            THEN /\ changed' = {} /\ hfresh' = (hfresh \cap newatoms) \cup newchanged /\ usable' = usable
            ELSE /\ changed' = newchanged /\ hfresh' = hfresh \cap newatoms /\ usable' = FALSE   \* KeyError
@@ -49,7 +49,8 @@ DelAtom(n) == /\ usable /\ n \in atoms
               /\ LET nb == {q \in DOMAIN bonds : n \notin q}
                      touched == UNION {q \ {n} : q \in {r \in DOMAIN bonds : n \in r /\ bonds[r] # 8}}
                  IN AfterMut(atoms \ {n}, [x \in atoms \ {n} |-> chg[x]], [q \in nb |-> bonds[q]],
-                             changed \cup touched, IF FlushOnDelete THEN <<>> ELSE cache)
+                             IF DiscardOnDelete THEN (changed \cup touched) \ {n} ELSE changed \cup touched,
+                             IF FlushOnDelete THEN <<>> ELSE cache)
 Read(v) == /\ usable /\ ~InTx /\ v \notin DOMAIN cache
            /\ cache' = [w \in DOMAIN cache \cup {v} |-> IF w = v THEN Fresh(v) ELSE cache[w]]
            /\ UNCHANGED <<atoms, chg, bonds, hfresh, changed, tx, usable>>
@@ -63,7 +64,7 @@ Commit == /\ usable /\ InTx
           /\ tx' = NoTx
           /\ cache' = IF FlushOnCommit THEN Flush(TRUE, TRUE) ELSE cache
           /\ IF changed \subseteq atoms
-             THEN /\ hfresh' = (IF changed = {} THEN atoms ELSE hfresh \cup changed) /\ changed' = {} /\ usable' = usable
+             THEN /\ hfresh' = (IF changed = {} \/ RecalcAllOnCommit THEN atoms ELSE hfresh \cup changed) /\ changed' = {} /\ usable' = usable
              ELSE /\ hfresh' = hfresh /\ changed' = changed /\ usable' = FALSE
           /\ UNCHANGED <<atoms, chg, bonds>>
 Abort == /\ usable /\ InTx
